@@ -700,6 +700,11 @@ func assertMerge(vm *VM, t Term, merge func([]clause, []clause) []clause, env *E
 		}
 	}
 
+	added, err := compile(t, env)
+	if err != nil {
+		return err
+	}
+
 	if vm.procedures == nil {
 		vm.procedures = map[procedureIndicator]procedure{}
 	}
@@ -707,11 +712,6 @@ func assertMerge(vm *VM, t Term, merge func([]clause, []clause) []clause, env *E
 	if !ok {
 		p = &userDefined{public: true, dynamic: true}
 		vm.procedures[pi] = p
-	}
-
-	added, err := compile(t, env)
-	if err != nil {
-		return err
 	}
 
 	u, ok := p.(*userDefined)
